@@ -511,6 +511,18 @@ def dedup_case(d) -> dict:
     return d2
 
 
+def is_submultiset(a, b) -> bool:
+    """no row invented, none delivered more often than in the isolated result (the order may differ: a variable that is
+    re-enumerated in an inner loop replays late what another iterator pulled meanwhile)"""
+    pool = list(b)
+    for x in a:
+        if x in pool:
+            pool.remove(x)
+        else:
+            return False
+    return True
+
+
 def is_subsequence(a, b) -> bool:
     it = iter(b)
     return all(any(x == y for y in it) for x in a)
@@ -882,8 +894,9 @@ def evaluate_detail(d) -> Tuple[Any, Any]:
 def extra_verdict(d, impl) -> Tuple[str, Any]:
     """-> ('ok' | 'known:<classes>' | 'violation', expected log).  Shapes outside the modelled fragment: the match with a
     known-finding class is INEXACT (no model predicts the wrong output), it is a signature per iterator:
-      K_interleave  : the iterator was live together with another one over a shared variable; it delivered a subsequence
-                      of its isolated rows (rows lost, none invented) and/or died with the dict-size RuntimeError;
+      K_interleave  : the iterator was live together with another one over a shared variable while the domains were still being
+                      cached (no warm-up); it delivered a sub-multiset of its isolated rows (rows lost or late, none invented,
+                      none repeated) and/or died with the dict-size RuntimeError;
       K_rule_reeval : the iterator belongs to a rule query object that has several evaluations in the case; its rows are
                       [tag, id] with tag in {0,1} and id among the ids of its isolated rows (missing rows, or the conclusion
                       of the other, suspended evaluation)."""
@@ -928,7 +941,7 @@ def extra_verdict(d, impl) -> Tuple[str, Any]:
                 continue
             return "violation", exp
         overlap = _live_overlap({"its": d["its"], "ops": d["ops"]}, lambda a, b: (a == i or b == i) and bool(shapes_vars[a] & shapes_vars[b]), log)
-        if overlap and not d.get("warm") and is_subsequence(rows, [r for r in iso[i] if isinstance(r, list)]):
+        if overlap and not d.get("warm") and is_submultiset(rows, [r for r in iso[i] if isinstance(r, list)]):
             classes.add("K_interleave")
             continue
         return "violation", exp
